@@ -42,7 +42,20 @@ def drop_exit_handlers():
     seams.atexit_callbacks[:] = []
 
 
+def _tiny_rvd():
+    r = np.zeros(10020, dtype=np.uint8)
+    p = np.zeros(10020, dtype=np.uint8)
+    r[0:10001] = 1
+    p[0:10002] = 1  # one voxel more than 10 001: RVD = 9.999e-05, written in exponent notation
+    r[10005:10008] = 2
+    p[10005:10008] = 2
+    r[10010:10014] = 3
+    p[10011:10014] = 3
+    return p, r
+
+
 INPUTS = {
+    "tiny_rvd": _tiny_rvd(),
     "tp": (np.array([[1, 1, 0, 0, 0], [0, 0, 2, 2, 2], [0, 0, 0, 0, 3]], dtype=np.uint8), np.array([[1, 1, 1, 0, 0], [0, 0, 2, 0, 0], [0, 0, 0, 3, 3]], dtype=np.uint8)),
     "empty_pred": (np.zeros((3, 5), dtype=np.uint8), np.array([[1, 1, 1, 0, 0], [0, 0, 2, 0, 0], [0, 0, 0, 3, 3]], dtype=np.uint8)),
     "none": (np.zeros((3, 5), dtype=np.uint8), np.zeros((3, 5), dtype=np.uint8)),
